@@ -62,3 +62,14 @@ Proof. vm_compute. reflexivity. Qed.
 Theorem c03_worklist_total : forall E ml, exists r, propagate_judgements E ml = Some r.
 Proof. exact propagate_judgements_total. Qed.
 Print Assumptions c03_worklist_total.
+
+(* closure at the level of the returned expressions: the only state variables that the update expression of an
+   analytically solved variable reads are variables of the analytic solver itself (a column with a non-zero propagator
+   entry, or the variable's own row) - never a numerically solved one *)
+From OdeVerif Require Import Model.Propagator Proofs.SymbolsP.
+Theorem c03_analytic_updates_read_analytic_only :
+  forall (Par : Type) (n : nat) (bpars pspars : nat -> list Par) (Pnz : nat -> nat -> bool) (bnz annz : nat -> bool) (r c : nat),
+    In (TVar c) (usyms (tsym Par) n TVar TProp TStep (fun k => map TPar (bpars k)) (fun k => map TPar (pspars k)) Pnz bnz annz r) ->
+    (c < n /\ Pnz r c = true) \/ c = r.
+Proof. exact update_reads_own_solver. Qed.
+Print Assumptions c03_analytic_updates_read_analytic_only.
